@@ -1,6 +1,7 @@
 package restli
 
 import (
+	"context"
 	"net/url"
 	"strings"
 
@@ -82,6 +83,35 @@ func Harness_C15_Url(nseg, klen, qlen int) {
 		verif.Assert(u.String() == full, "URL text is not origin + path + query")
 	}
 	_ = strings.TrimSpace
+}
+
+// Harness_C15_Request: the URL of the request actually built (NewGetRequest),
+// with tunnelling off or forced: the Rest.li-encoded path reaches the request
+// byte for byte either way, and the query is in the URL iff the request is not
+// tunnelled.
+func Harness_C15_Request(klen, qlen int) {
+	key := restlicodec.Ror2PathEscape(verif.String(klen))
+	wantQuery := "q=" + restlicodec.Ror2QueryEscape(verif.String(qlen))
+	hostUrl, _ := url.Parse("http://h:8080/ctx")
+	threshold := []int{0, 1}[verif.Choose(2)]
+	c := &Client{HostnameResolver: &SimpleHostnameResolver{Hostname: hostUrl}, QueryTunnellingThreshold: threshold}
+	resource := "/root/" + key
+	if verif.Bool() {
+		resource += "/sub"
+	}
+	req, err := NewGetRequest(c, context.Background(), ResourcePathString(resource), QueryParamsString(wantQuery), Method_get)
+	verif.Assert(err == nil && req != nil, "building the request failed on encoder output")
+	tunnelled := req.Header.Get(MethodOverrideHeader) != ""
+	verif.Assert(tunnelled == (threshold > 0 && len(wantQuery) > threshold), "tunnelling decision differs from the threshold rule")
+	verif.Assert(req.URL.Scheme == "http" && req.URL.Host == "h:8080", "scheme or host changed")
+	verif.Assert(req.URL.EscapedPath() == "/ctx"+resource, "the request's path is not the encoder's path: got "+req.URL.EscapedPath()+" want /ctx"+resource)
+	if tunnelled {
+		verif.Assert(req.URL.RawQuery == "" && req.URL.String() == "http://h:8080/ctx"+resource, "tunnelled request URL is not origin + path")
+		verif.Cover("tunnelled")
+	} else {
+		verif.Assert(req.URL.RawQuery == wantQuery && req.URL.String() == "http://h:8080/ctx"+resource+"?"+wantQuery, "request URL is not origin + path + query")
+		verif.Cover("plain")
+	}
 }
 
 func Harness_C15_Twin(klen int) {
